@@ -147,6 +147,54 @@ def shard(job):
     return col.partial()
 
 
+RAW_LRUS = [[], ["p:"], "p:|", ["s:http"], "s:http|", ["s:http", "h:fr"], ["s:http", "h:fr", "h:lemonde"], ["s:http", "h:fr", "h:lemonde", "p:"], "s:http|h:fr|h:lemonde|p:a|"]
+
+
+def raw_stems(lru):
+    from ural.lru.serialization import unserialize_lru
+    return tuple(unserialize_lru(lru)) if isinstance(lru, str) else tuple(lru)
+
+
+def raw_history(col, cname, suffix_aware, lrus, queries):
+    """entries stored directly under LRUs (set_lru), incl. the EMPTY one (it is a prefix of every query: a catch-all entry) and the ones that
+    are empty once the empty path stems are ignored"""
+    cls, stems_fn, _ = CLASSES[cname]
+    fn = "ural.lru.trie.%s" % cname
+    trie = cls(suffix_aware=suffix_aware)
+    ref = {}
+    ctx = {"class": cname, "suffix_aware": suffix_aware, "set_lru": [l if isinstance(l, str) else list(l) for l in lrus]}
+    for i, lru in enumerate(lrus):
+        r = call(trie.set_lru, lru if isinstance(lru, str) else list(lru), "v%d" % i)
+        if r[0] != "ok":
+            col.violation("set-total", fn + ".set_lru", ctx, list(r), "no exception")
+            return
+        ref[clean(raw_stems(lru))] = "v%d" % i
+    col.count("len")
+    r = call(len, trie)
+    if r != ("ok", len(ref)):
+        col.violation("len", fn + ".__len__", ctx, list(r), len(ref))
+    col.count("iter")
+    r = call(lambda: sorted(trie))
+    if r[0] != "ok" or r[1] != sorted(ref.values()):
+        col.violation("iter-each-entry-once", fn + ".__iter__", ctx, repr(r), sorted(ref.values()))
+    for q in queries:
+        r0 = call(stems_fn, q, suffix_aware=suffix_aware)
+        if r0[0] != "ok":
+            continue
+        exp = ref_lpv(ref, clean(r0[1]))
+        col.count("match")
+        r = call(trie.match, q)
+        if r[0] != "ok" or r[1] != exp:
+            col.violation("match-longest-stored-prefix", fn + ".match", dict(ctx, query=q), repr(r), exp)
+    for lru in RAW_LRUS:
+        exp = ref_lpv(ref, clean(raw_stems(lru)))
+        col.count("match_lru")
+        r = call(trie.match_lru, lru if isinstance(lru, str) else list(lru))
+        if r[0] != "ok" or r[1] != exp:
+            col.violation("match_lru-list", fn + ".match_lru", dict(ctx, query_lru=lru if isinstance(lru, str) else list(lru)), repr(r), exp)
+    col.nontriv(("raw", cname, suffix_aware, repr(lrus)))
+
+
 def main():
     a = args("C11")
     col = Collector("C11", a.tier, a.seed)
@@ -154,7 +202,9 @@ def main():
         import json
         rp = json.load(open(a.replay))
         inp = rp["input"]
-        if "history" in inp:
+        if "set_lru" in inp:
+            raw_history(col, inp["class"], inp["suffix_aware"], inp["set_lru"], [inp["query"]] if "query" in inp else CORE)
+        elif "history" in inp:
             run_history(col, inp["class"], inp["suffix_aware"], [tuple(h) for h in inp["history"]], [inp["query"]] if "query" in inp else CORE)
         else:
             variant_collisions(col, inp["class"], inp["suffix_aware"], [inp["stored"], inp["query"]])
@@ -172,6 +222,13 @@ def main():
     for cname in CLASSES:
         for sa in (False, True):
             variant_collisions(col, cname, sa, UNIVERSE)
+    # entries stored directly under raw LRUs, the empty one included: every history of <= 2 set_lru over RAW_LRUS
+    import itertools as _it
+    for cname in CLASSES:
+        for sa in (False, True):
+            for L in (1, 2):
+                for lrus in _it.product(RAW_LRUS, repeat=L):
+                    raw_history(col, cname, sa, list(lrus), CORE[:6])
     # random longer histories over the whole universe
     rnd = random.Random(a.seed)
     for i in range(60 if a.tier == "quick" else 1500):
